@@ -11,7 +11,9 @@ CONSTANTS
   SpecialCids = {"m1", "m2"}
   Journal = FALSE
   DumpFile = FALSE
+  VersionedCids = {}
   Raisers = {}
+  Conform = TRUE
   InitConnected = TRUE
   Membership = TRUE
   CompactMin = 1000000
